@@ -230,6 +230,11 @@ func (pe *pEval) run(fn *ssa.Function, st *peState, depth int, done func(s *peSt
 						break blocks
 					}
 				}
+				if v, isVal := in.(ssa.Value); isVal && !isPhi(in) {
+					// a value assumed or folded on an earlier visit (loop) does not survive re-execution of its definition
+					delete(s.env, v)
+					delete(s.tuples, v)
+				}
 				switch x := in.(type) {
 				case *ssa.Phi:
 					// all φ of a block read their inputs simultaneously
